@@ -44,6 +44,7 @@ def placements():
     out.append(("mod-dotted", lambda t: {"main": [("mod", "sub.m1"), R(t)], "sub/m1": [STRUCT_X]}, True, "Struct"))
     out.append(("mod-struct-using-mod-enum", lambda t: {"main": [("mod", "m1"), ("struct", "R", (("pre", 0, U(8), None, None), ("r", 1, _rename(t, "Y"), None, None)))], "m1": [ENUM_X, ("struct", "Y", (("e", 0, ("ref", "X"), None, None), ("es", 1, Arr(("ref", "X"), 2), None, None)))]}, True, "Struct"))
     out.append(("mod-enum-and-struct", lambda t: {"main": [("mod", "m1"), R(t)], "m1": [("struct", "Z", (("k", 0, U(1), None, None),)), ENUM_X]}, True, "Enum"))
+    out.append(("dup-kind-across-import", lambda t: {"main": [ENUM_X, ("mod", "m1"), ("struct", "R", (("pre", 0, U(8), None, None), ("r", 1, ("ref", "Y"), None, None)))], "m1": [STRUCT_X, ("struct", "Y", (("pre", 0, U(8), None, None), ("w", 1, _rename(t, "X"), None, None)))]}, "dup", "Struct"))
     out.append(("inside-mod-undeclared", lambda t: {"main": [("mod", "m1")], "m1": [R(t)]}, False, None))
     out.append(("inside-mod-uses-main-decl", lambda t: {"main": [STRUCT_X, ("mod", "m1")], "m1": [R(t)]}, False, None))
     return out
@@ -154,6 +155,23 @@ def make_worker(tier):
                 S.violation("C08.total", "C08.total/exception:%s/%s" % (type(e).__name__, label), {"files": {k: print_schema(v) for k, v in files.items()}}, expected="Ok or Err", actual="%s: %s" % (type(e).__name__, str(e)[:300]))
                 continue
             inp = {"files": texts, "placement": label, "wrapper": type_str(t)}
+            if ok == "dup":
+                # two declarations named X (enum in main, struct in the module): the parser accepts, the verifier
+                # rejects later; the module's reference must still find a declaration of the kind it is tagged with
+                if res.is_err():
+                    S.add("outcomes", "err-unexpected")
+                    S.violation("C08.resolve", "C08.resolve/rejected-valid-reference/%s/%s" % (label, wl), inp, expected="Ok", actual=repr(res.err()))
+                    continue
+                fcp = res.unwrap()
+                S.add("outcomes", "ok-dup")
+                for st in fcp.structs:
+                    for f in st.fields:
+                        lt = leaf_type(f.type)
+                        if isinstance(lt, StructType) and not any(d.name == lt.name for d in fcp.structs):
+                            S.violation("C08.kind", "C08.kind/tagged-struct-but-no-such-struct/%s/%s" % (label, wl), inp, expected="a struct named " + lt.name, actual=[d.name for d in fcp.structs])
+                        if isinstance(lt, EnumType) and not any(d.name == lt.name for d in fcp.enums):
+                            S.violation("C08.kind", "C08.kind/tagged-enum-but-no-such-enum/%s/%s" % (label, wl), inp, expected="an enum named " + lt.name, actual=[d.name for d in fcp.enums])
+                continue
             if ok:
                 if res.is_err():
                     S.add("outcomes", "err-unexpected")
